@@ -133,7 +133,10 @@ class TranslateNode(Node, TranslatableTag):
         """Return a translations object from the current render context."""
         return cast(
             Translations,
-            context.resolve(self.translations_var, self.default_translations),
+            # Global data only. Templates can't choose the object we call.
+            context.base_globals.get(
+                self.translations_var, self.default_translations
+            ),
         )
 
     def resolve_count(
